@@ -97,6 +97,7 @@ CHECKS.update({
 
 EXTRA_ENGINES = [
     {"name": "ffi-driver", "path": "/verif/ffi-driver", "serves_properties": ["C18", "C07"], "kind_free_text": "Rust FFI call-sequence driver (extern declarations of the C surface) run under the audit allocator, Miri, ASan/LSan and valgrind by tools/engines/c18.py"},
+    {"name": "rio-mon (overflow-checked build)", "path": "/verif/harness", "serves_properties": ["C07", "C16"], "kind_free_text": "the same monitors and the library built with RUSTFLAGS=-C overflow-checks=on in the release profile (target-ovf), run by tools/engines/ovf.sh after the primary run; its summary is merged into the evidence under coverage.engines.overflow_checked_build"},
     {"name": "cdriver", "path": "/verif/cdriver", "serves_properties": ["C18"], "kind_free_text": "C client compiled with clang -fsanitize=address,undefined against libredirectionio.a (thorough tier)"},
 ]
 
@@ -106,6 +107,26 @@ CHECKS.update({
          "Release profile only (the shipping profile; the dev-profile recursion depth F10 is not exercised); termination is bounded by logical step bounds owned by C16 (tokens) and C19 (hops) plus a wall-clock watchdog whose firing is inconclusive.",
          "5/C07"),
 })
+
+
+# additions of the round-6 / round-7 sessions: (technique suffix, level text suffix, level note replacement or None)
+APPEND = {
+ "C03": ("", " Filter targets include raw-text elements (style, script, noscript); a chunk boundary inside a CDATA section counts as the known finding only when it falls inside the opener `<![CDATA[` itself (after the opener the unchanged library holds the section back as text).", None),
+ "C04": ("; large target elements with the answer known by construction", " Target elements of 0.3-2.5 MB under replace / selector-guarded append and prepend (buffered) and plain append (streamed), delivered whole and in 16 KiB / 64 KiB / 1 MB chunks, are compared byte for byte with the input carrying the one edit.", None),
+ "C07": ("; the panic monitor is run a second time with library and monitors built with integer-overflow checks (-C overflow-checks=on)", " The same monitor is then run on another PRNG stream from a second build of library and monitors with rustc's integer-overflow checks switched on (30 % of the budget in the quick tier, all of it in the thorough tier): an arithmetic overflow that wraps silently in the shipping profile panics there.",
+         "Shipping (release) profile plus a release build with integer-overflow checks; the dev-profile recursion depth F10 is not exercised; termination is bounded by logical step bounds owned by C16 (tokens) and C19 (hops) plus a wall-clock watchdog whose firing is inconclusive."),
+ "C10": ("", " Marker expressions include top-level alternations (of groups and of bare branches); the HTML body filter's second value (inner_value, explicit or defaulted) is read from the serialised action and must carry the same substitutions.", None),
+ "C11": ("", " Histories include single-rule replacement (an earlier version with several methods, remove(id), insert), emptying the whole router (one by one or in one batch) and refilling it, and pattern rules with upper-case literal text under the case policy.", None),
+ "C12": ("", " A legal but heavy marker expression (compiled program of a few MiB) is looked up before and after warm-up.", None),
+ "C13": ("; actions merged from 2-4 rules vs the concatenation of their filter lists in application order", " Actions built by Action::from_routes_rule from 2-4 rules with distinct ranks (handed over in scrambled order) must filter like the concatenation of the rules' filter lists in application order.", None),
+ "C14": ("; gzip producers that write several members and optional header fields", " gzip streams made of several members (RFC 1952 section 2.2, incl. an empty last member) and with FNAME / FCOMMENT / FEXTRA fields are part of the workload (this found C14-MULTIMEMBER, repaired in ae2381f); the output is decoded with a multi-member decoder that rejects trailing garbage.", None),
+ "C15": ("", " Quoted attribute values containing '>' and legacy inline scripts with a nested script element (script-data double-escaped state) whose strings name the chain element are generated next to the targets.", None),
+ "C16": ("; tags assembled part by part with an invalid byte in at most one part; second run with integer-overflow checks", " Tags are also assembled from a name and attributes known by construction with an invalid byte planted in at most one part: every other part must still be returned with the expected text (the accessor clause speaks of the bytes of that name / attribute). The whole monitor is run a second time from a build of library and monitors with rustc's integer-overflow checks switched on.", None),
+ "C17": ("", " Rules carry deterministic sampling (none / 0 / 100) and requests an explicit sampling decision or none; a third of the routers have the marketing flag off (so configurations rewriting nothing occur) and requests include URLs that the router's own normalisation rewrites (marketing parameter, unsorted query, space, non-ASCII).", None),
+ "C18": ("", " The three spellings of 'no trusted proxies configured' (NULL object, object created from NULL, from the empty list) must derive the same client address from the same peer and forwarding headers.", None),
+ "C19": ("", " One of the project hosts is an IP literal in a fifth of the absolute cases; rules combining an ip range with an excluded method list are generated.", None),
+ "C01": ("", " Marker names that are strict prefixes of one another (n / nn, sub / subx) occur in path and host patterns.", None),
+}
 
 PENDING_REASON = "monitor under construction in this session; not claimed until its check is registered"
 
@@ -123,13 +144,18 @@ def main():
         pid = p["id"]
         if pid in CHECKS:
             tech, text, note, ref = CHECKS[pid]
+            if pid in APPEND:
+                t2, x2, n2 = APPEND[pid]
+                tech, text = tech + t2, text + x2
+                if n2:
+                    note = n2
             checks.append({
                 "property_id": pid,
                 "quick_cmd": f"./check {pid} quick",
                 "thorough_cmd": f"./check {pid} thorough",
                 "evidence_file": f"/verif/evidence/{pid}.json",
                 "replay_cmd_template": f"./check {pid} --replay {{path}}",
-                "engine": "ffi-driver" if pid == "C18" else ("rio-mon + ffi-driver" if pid == "C07" else "rio-mon"),
+                "engine": "ffi-driver" if pid == "C18" else ("rio-mon + ffi-driver + rio-mon (overflow-checked build)" if pid == "C07" else ("rio-mon + rio-mon (overflow-checked build)" if pid == "C16" else "rio-mon")),
                 "level_claimed": {"category": "exploration", "text": text, "design_ref": f"DESIGN.md section {ref}"},
                 "level_note": note,
                 "technique": tech,
